@@ -1167,3 +1167,12 @@ def r2(ctx):
     n_ins += sum(1 for b in ctx.facts.all_bodies() for bi, t in b.calls(r"Iterator::collect$") if re.search(r"^<std::iter::Map<http::header::ValueIter<.*collect::<std::vec::Vec<std::vec::Vec<u8>>>$", t.get("resolved_full", "")))
     if n + n_ins < 3:
         yield MISSING("C08-R2", "or_default/floor", "expected >= 3 value-list creation sites (entry().or_default() in normalize_headers and the form merge, insert(vec![..]) in query_string_to_normalized_map), found %d + %d" % (n, n_ins))
+
+
+@M.rule("C08-R3", "header-carrier text is the header's bytes widened one by one (shared with C02-R9)")
+def r_latin1(ctx):
+    import c02
+
+    for r in c02.r9(ctx):
+        r.rule = "C08-R3"
+        yield r
